@@ -370,13 +370,15 @@ Section Facts.
     symmetry. apply existsb_exists. exists (name, v). split; [exact Hin|]. simpl. rewrite mem_name_lookup, Hl. reflexivity.
   Qed.
 
-  Lemma reindex_vars_fills_ext n m fills1 fills2 fv : forall vars next,
+  Lemma reindex_vars_fills_ext n m fills1 fills2 fv : forall vars next on,
     (forall name, mem_name name vars = true -> lookup name fills1 = lookup name fills2) ->
-    reindex_vars' n m fills1 fv vars next = reindex_vars' n m fills2 fv vars next.
+    reindex_vars' n m fills1 fv vars next on = reindex_vars' n m fills2 fv vars next on.
   Proof.
-    induction vars as [|[name sr] r IH]; intros next H; simpl; [reflexivity|].
+    induction vars as [|[name sr] r IH]; intros next on H; simpl; [reflexivity|].
     unfold fill_for. rewrite (H name) by (simpl; rewrite String.eqb_refl; reflexivity).
-    rewrite (IH (next + 1)); [reflexivity|]. intros k Hk. apply H. simpl. rewrite Hk. apply orb_true_r.
+    destruct (fill_cell' n (s_dtype sr) match lookup name fills2 with Some v => v | None => fv end) as [c|e]; simpl; [|reflexivity].
+    destruct (copy_over (is_obj (s_dtype sr)) (repeat c n) m (s_data sr) on) as [[d on1]|e]; simpl; [|reflexivity].
+    rewrite (IH (next + 1) on1); [reflexivity|]. intros k Hk. apply H. simpl. rewrite Hk. apply orb_true_r.
   Qed.
   (* not strict: fill keywords naming no variable are ignored, whatever their values *)
   Theorem unknown_fill_ignored_not_strict (st : cst) new_span new_id fv strict fills1 fills2 fresh :
@@ -386,8 +388,8 @@ Section Facts.
   Proof.
     intros Hs H. unfold reindex_M. unfold effective_strict in Hs. rewrite Hs. simpl.
     destruct (build_positions' (c_span st) 0 (span_labels new_span)) as [m|e]; simpl; [|reflexivity].
-    destruct (copy_attrs (c_attrs st) fresh) as [attrs' next].
-    rewrite (reindex_vars_fills_ext _ m fills1 fills2 fv (c_vars st) next H). reflexivity.
+    destruct (copy_attrs (c_attrs st) (fresh + 1)) as [attrs' next].
+    rewrite (reindex_vars_fills_ext _ m fills1 fills2 fv (c_vars st) next _ H). reflexivity.
   Qed.
   (* strict with every keyword naming a variable: the strict flag makes no difference *)
   Theorem known_fills_strict_irrelevant (st : cst) new_span new_id fv fills fresh s1 s2 :
@@ -402,17 +404,17 @@ Section Facts.
   Qed.
 
   (* ================= totality: nothing but the strict test and the fill conversions can fail ================= *)
-  Lemma reindex_vars_succeeds ols labels m fills fv : forall vars next,
+  Lemma reindex_vars_succeeds ols labels m fills fv : forall vars next on,
     Forall2 pos_rel m (expected_positions ols 0 labels) ->
     Forall (fun kv => length (s_data (snd kv)) = length ols) vars ->
     Forall (fun kv => exists c, fill_cell' (length labels) (s_dtype (snd kv)) (fill_for fills fv (fst kv)) = Ret c) vars ->
-    exists vars', reindex_vars' (length labels) m fills fv vars next = Ret vars'.
+    exists vars' on', reindex_vars' (length labels) m fills fv vars next on = Ret (vars', on').
   Proof.
-    induction vars as [|[name sr] r IH]; intros next HF Hwf Hc; simpl; [eexists; reflexivity|].
+    induction vars as [|[name sr] r IH]; intros next on HF Hwf Hc; simpl; [eexists; eexists; reflexivity|].
     inversion Hwf as [|? ? Hlen Hwf']; subst. inversion Hc as [|? ? [c Hc1] Hc']; subst. simpl in Hlen, Hc1.
     rewrite Hc1. simpl.
-    pose proof (copy_over_spec ols (s_data sr) c labels [] m Hlen HF) as Hco. simpl in Hco. rewrite Hco. simpl.
-    destruct (IH (next + 1) HF Hwf' Hc') as [r' Hr]. rewrite Hr. simpl. eexists; reflexivity.
+    destruct (copy_over_spec (is_obj (s_dtype sr)) ols (s_data sr) c labels [] m on Hlen HF) as [res [on1 [Hco _]]]. simpl in Hco. rewrite Hco. simpl.
+    destruct (IH (next + 1) on1 HF Hwf' Hc') as [r' [on2 Hr]]. rewrite Hr. simpl. eexists; eexists; reflexivity.
   Qed.
   Theorem reindex_succeeds (st : cst) (new_span : span) (new_id : Z) (fv : pyval) (strict : option bool)
           (fills : list (string * pyval)) (fresh : Z) :
@@ -429,8 +431,8 @@ Section Facts.
       rewrite (Hs kv Hin) in Hk. discriminate. }
     rewrite E.
     destruct (build_positions_spec (c_span st) (span_labels new_span) 0%nat Hok) as [m [Hm HF]].
-    rewrite Hm. simpl. destruct (copy_attrs (c_attrs st) fresh) as [attrs' next].
-    destruct (reindex_vars_succeeds _ _ m fills fv (c_vars st) next HF Hwf Hc) as [vars' Hv]. rewrite Hv. simpl.
+    rewrite Hm. simpl. destruct (copy_attrs (c_attrs st) (fresh + 1)) as [attrs' next].
+    destruct (reindex_vars_succeeds _ _ m fills fv (c_vars st) next (next + Z.of_nat (length (c_vars st))) HF Hwf Hc) as [vars' [on' Hv]]. rewrite Hv. simpl.
     eexists; reflexivity.
   Qed.
 
@@ -488,14 +490,15 @@ Section Facts.
              (a b : string * series cell) : Prop :=
     fst b = fst a /\ s_dtype (snd b) = s_dtype (snd a)
     /\ exists c, fill_cell' (length labels) (s_dtype (snd a)) (model_fill fills fv (fst a)) = Ret c
-              /\ s_data (snd b) = reindexed_data ols (s_data (snd a)) c labels.
+              /\ map erase (s_data (snd b)) = map erase (reindexed_data ols (s_data (snd a)) c labels)
+              /\ (s_dtype (snd a) <> DObj -> s_data (snd b) = reindexed_data ols (s_data (snd a)) c labels).
 
   Theorem model_reindex_values (st st' : cst) (new_span : span) (new_id : Z) (fv : pyval) (strict : option bool)
           (fills : list (string * pyval)) (fresh : Z) :
     wf st ->
     old_span_ok (c_span st) (span_labels new_span) ->
     model_reindex_M pd_get_loc pd_contains cast st new_span new_id fv strict fills fresh = Ret st' ->
-    c_span st' = new_span /\ c_span_id st' = new_id /\ c_strict st' = c_strict st
+    c_span st' = new_span /\ c_span_id st' = fresh /\ c_strict st' = c_strict st
     /\ attrs_view (c_attrs st') = attrs_view (c_attrs st)
     /\ Forall2 (model_series_rel (span_labels (c_span st)) (span_labels new_span) fills fv) (c_vars st) (c_vars st').
   Proof.
@@ -628,14 +631,15 @@ Section Facts.
     wf st ->
     old_span_ok (c_span st) (span_labels new_span) ->
     pandas_reindex_M pd_get_loc pd_contains cast series_reindex assign_cast st names new_span new_id method fv strict fills l1 l2 l3 l4 l5 fresh = Ret st' ->
-    c_span st' = new_span /\ c_span_id st' = new_id /\ c_strict st' = c_strict st
+    c_span st' = new_span /\ c_span_id st' = fresh /\ c_strict st' = c_strict st
     /\ attrs_view (c_attrs st') = attrs_view (c_attrs st)
     /\ map fst (c_vars st') = map fst (c_vars st)
     /\ map (fun kv => s_dtype (snd kv)) (c_vars st') = map (fun kv => s_dtype (snd kv)) (c_vars st)
     /\ (forall k sr, in_names k names = false -> lookup k (c_vars st) = Some sr ->
           exists sr' c, lookup k (c_vars st') = Some sr' /\ s_dtype sr' = s_dtype sr
             /\ fill_cell' (length (span_labels new_span)) (s_dtype sr) (model_fill [] PNone k) = Ret c
-            /\ s_data sr' = reindexed_data (span_labels (c_span st)) (s_data sr) c (span_labels new_span)).
+            /\ map erase (s_data sr') = map erase (reindexed_data (span_labels (c_span st)) (s_data sr) c (span_labels new_span))
+            /\ (s_dtype sr <> DObj -> s_data sr' = reindexed_data (span_labels (c_span st)) (s_data sr) c (span_labels new_span))).
   Proof.
     intros Hwf Hok H. unfold pandas_reindex_M in H.
     destruct ((match strict with None => c_strict st | Some b => b end) && existsb (fun kv => negb (in_names (fst kv) names)) fills); [discriminate|].
@@ -650,16 +654,18 @@ Section Facts.
     intros k sr Hk Hl. rewrite (F7 k Hk).
     destruct (Forall2_lookup (fun a b => s_dtype (snd b) = s_dtype (snd a)
                  /\ exists c, fill_cell' (length (span_labels new_span)) (s_dtype (snd a)) (model_fill [] PNone (fst a)) = Ret c
-                           /\ s_data (snd b) = reindexed_data (span_labels (c_span st)) (s_data (snd a)) c (span_labels new_span))
-               (c_vars st) (c_vars r) k sr) as [b [Hb [Hd [c [Hc Hdata]]]]].
+                           /\ map erase (s_data (snd b)) = map erase (reindexed_data (span_labels (c_span st)) (s_data (snd a)) c (span_labels new_span))
+                           /\ (s_dtype (snd a) <> DObj -> s_data (snd b) = reindexed_data (span_labels (c_span st)) (s_data (snd a)) c (span_labels new_span)))
+               (c_vars st) (c_vars r) k sr) as [b [Hb [Hd [c [Hc [Hdata Hex]]]]]].
     - clear - M5. induction M5 as [|a b l l' [Ha [Hb Hc]] HF IH]; constructor; [|exact IH]. split; [exact Ha|]. split; [exact Hb | exact Hc].
     - exact Hl.
-    - simpl in *. exists b, c. split; [exact Hb|]. split; [exact Hd|]. split; [exact Hc | exact Hdata].
+    - simpl in *. exists b, c. split; [exact Hb|]. split; [exact Hd|]. split; [exact Hc|]. split; [exact Hdata | exact Hex].
   Qed.
 
   (* ================= reindex, then label access (C12 observed through C10's access path) =================
-     Reading the result by label — with any lookup that meets locate_spec on the NEW span — gives, for every variable and every
-     period p of the new span, the old value at p's position in the old span if p is there, else the variable's fill. *)
+     Reading the result by label — with any lookup that meets locate_spec on the NEW span — gives, for every variable that is not
+     of object dtype and every period p of the new span, the old value at p's position in the old span if p is there, else the
+     variable's fill.  (For object dtype the same holds up to the identity of the copied object: `erase`.) *)
   Theorem reindex_then_label_get (st st' : cst) (new_span : span) (new_id : Z) (fv : pyval) (strict : option bool)
           (fills : list (string * pyval)) (fresh : Z) (lc' : label -> outcome loc) :
     wf st ->
@@ -669,26 +675,35 @@ Section Facts.
     forall name sr, lookup name (c_vars st) = Some sr ->
     exists c, fill_cell' (length (span_labels new_span)) (s_dtype sr) (fill_for fills fv name) = Ret c
       /\ forall p i, pos p (span_labels new_span) = Some i ->
-           get_item_with lc' st' name (KLabel p)
-           = Ret (RScalar (match pos p (span_labels (c_span st)) with Some q => nth q (s_data sr) c | None => c end)).
+           exists v, get_item_with lc' st' name (KLabel p) = Ret (RScalar v)
+             /\ erase v = erase (match pos p (span_labels (c_span st)) with Some q => nth q (s_data sr) c | None => c end)
+             /\ (s_dtype sr <> DObj -> v = match pos p (span_labels (c_span st)) with Some q => nth q (s_data sr) c | None => c end).
   Proof.
     intros Hwf Hok H Hspec name sr Hl.
     destruct (reindex_values st st' new_span new_id fv strict fills fresh Hwf Hok H) as [Hsp [_ [_ [_ HF]]]].
+    pose proof (series_rel_meta _ _ _ _ _ _ HF) as [_ [_ Hlens]].
     destruct (Forall2_lookup (fun a b => s_dtype (snd b) = s_dtype (snd a)
                  /\ exists c, fill_cell' (length (span_labels new_span)) (s_dtype (snd a)) (fill_for fills fv (fst a)) = Ret c
-                           /\ s_data (snd b) = reindexed_data (span_labels (c_span st)) (s_data (snd a)) c (span_labels new_span))
-               (c_vars st) (c_vars st') name sr) as [sr' [Hl' [_ [c [Hc Hd]]]]].
+                           /\ map erase (s_data (snd b)) = map erase (reindexed_data (span_labels (c_span st)) (s_data (snd a)) c (span_labels new_span))
+                           /\ (s_dtype (snd a) <> DObj -> s_data (snd b) = reindexed_data (span_labels (c_span st)) (s_data (snd a)) c (span_labels new_span)))
+               (c_vars st) (c_vars st') name sr) as [sr' [Hl' [_ [c [Hc [Hd Hex]]]]]].
     - clear - HF. induction HF as [|a b l l' [Ha [Hb Hc]] HF IH]; constructor; [|exact IH]. split; [exact Ha|]. split; [exact Hb | exact Hc].
     - exact Hl.
     - simpl in *. exists c. split; [exact Hc|]. intros p i Hp.
       assert (Hlen : length (s_data sr') = length (span_labels (c_span st'))).
-      { rewrite Hd, Hsp. unfold reindexed_data. apply map_length. }
+      { rewrite Hsp. apply (f_equal (@length cell)) in Hd. rewrite !map_length in Hd. rewrite Hd. unfold reindexed_data. apply map_length. }
       assert (Hspec' : locate_spec (span_labels (c_span st')) lc') by (rewrite Hsp; exact Hspec).
       assert (Hp' : pos p (span_labels (c_span st')) = Some i) by (rewrite Hsp; exact Hp).
       destruct (label_get_exact lc' st' name sr' Hspec' Hl' Hlen p i Hp') as [v [Hv Hg]].
-      rewrite Hg. f_equal. f_equal.
-      rewrite Hd in Hv. unfold reindexed_data in Hv. rewrite nth_error_map in Hv.
-      destruct (pos_Some _ _ _ Hp) as [Hn _]. rewrite Hn in Hv. simpl in Hv. congruence.
+      exists v. split; [exact Hg|].
+      destruct (pos_Some _ _ _ Hp) as [Hn _].
+      assert (Hspec_at : nth_error (reindexed_data (span_labels (c_span st)) (s_data sr) c (span_labels new_span)) i
+                                  = Some (match pos p (span_labels (c_span st)) with Some q => nth q (s_data sr) c | None => c end)).
+      { unfold reindexed_data. rewrite nth_error_map, Hn. reflexivity. }
+      split.
+      + assert (E : nth_error (map erase (s_data sr')) i = Some (erase v)) by (rewrite nth_error_map, Hv; reflexivity).
+        rewrite Hd, nth_error_map, Hspec_at in E. simpl in E. inversion E. reflexivity.
+      + intros Hdt. rewrite (Hex Hdt), Hspec_at in Hv. inversion Hv. reflexivity.
   Qed.
 
   (* ================= sanity corollaries of reindex_values ================= *)
@@ -701,6 +716,16 @@ Section Facts.
     rewrite (nth_indep (map f ols) c (f p)) by (rewrite map_length; exact Hn).
     rewrite map_nth. rewrite (nth_error_nth _ _ p Ep). unfold f. rewrite (pos_nodup _ _ _ ND Ep). reflexivity.
   Qed.
+  (* the erased view of a specified series depends on the erased view of the old data only *)
+  Lemma erase_reindexed_data ols d c labels :
+    map erase (reindexed_data ols d c labels) = reindexed_data ols (map erase d) (erase c) labels.
+  Proof.
+    unfold reindexed_data. rewrite map_map. apply map_ext. intros p. destruct (pos p ols); [|reflexivity].
+    symmetry. apply map_nth.
+  Qed.
+  (* the view compared by the corollaries: names, dtypes, data up to the identities of copied objects *)
+  Definition eview (vars : list (string * series cell)) := map (fun kv => (fst kv, (s_dtype (snd kv), map erase (s_data (snd kv))))) vars.
+
   (* reindexing to the same periods in the same order changes no value of any variable, whatever the fill arguments *)
   Theorem reindex_same_labels_identity (st st' : cst) (new_span : span) (new_id : Z) (fv : pyval) (strict : option bool)
           (fills : list (string * pyval)) (fresh : Z) :
@@ -708,13 +733,12 @@ Section Facts.
     old_span_ok (c_span st) (span_labels new_span) ->
     span_labels new_span = span_labels (c_span st) -> NoDup (span_labels (c_span st)) ->
     reindex_M' st new_span new_id fv strict fills fresh = Ret st' ->
-    map (fun kv => (fst kv, (s_dtype (snd kv), s_data (snd kv)))) (c_vars st')
-    = map (fun kv => (fst kv, (s_dtype (snd kv), s_data (snd kv)))) (c_vars st).
+    eview (c_vars st') = eview (c_vars st).
   Proof.
     intros Hwf Hok Hsame ND H.
     destruct (reindex_values st st' new_span new_id fv strict fills fresh Hwf Hok H) as [_ [_ [_ [_ HF]]]].
     rewrite Hsame in HF. unfold wf in Hwf. revert Hwf.
-    induction HF as [|a b l l' [Ha [Hb [c [_ Hd]]]] HF IH]; intros Hwf; [reflexivity|].
+    induction HF as [|a b l l' [Ha [Hb [c [_ [Hd _]]]]] HF IH]; intros Hwf; [reflexivity|].
     inversion Hwf as [|? ? Hlen Hwf']; subst. simpl. rewrite (IH Hwf'). f_equal.
     rewrite Ha, Hb, Hd. rewrite (reindexed_data_same _ _ c ND Hlen). reflexivity.
   Qed.
@@ -762,8 +786,7 @@ Section Facts.
     old_span_ok mid (span_labels back) ->
     reindex_M' st mid id1 fv1 strict1 fills1 fresh1 = Ret st1 ->
     reindex_M' st1 back id2 fv2 strict2 fills2 fresh2 = Ret st2 ->
-    map (fun kv => (fst kv, (s_dtype (snd kv), s_data (snd kv)))) (c_vars st2)
-    = map (fun kv => (fst kv, (s_dtype (snd kv), s_data (snd kv)))) (c_vars st).
+    eview (c_vars st2) = eview (c_vars st).
   Proof.
     intros Hwf ND Hsub Hback Hok1 Hok2 H1 H2.
     pose proof (reindex_wf st st1 mid id1 fv1 strict1 fills1 fresh1 Hwf Hok1 H1) as Hwf1.
@@ -771,10 +794,12 @@ Section Facts.
     rewrite <- Hsp1 in Hok2.
     destruct (reindex_values st1 st2 back id2 fv2 strict2 fills2 fresh2 Hwf1 Hok2 H2) as [_ [_ [_ [_ HF2]]]].
     rewrite Hsp1, Hback in HF2. unfold wf in Hwf. revert Hwf HF2. generalize (c_vars st2).
-    induction HF1 as [|a b l l' [Ha [Hb [c1 [_ Hd1]]]] HF1 IH]; intros vars2 Hwf HF2.
+    induction HF1 as [|a b l l' [Ha [Hb [c1 [_ [Hd1 _]]]]] HF1 IH]; intros vars2 Hwf HF2.
     - inversion HF2; subst. reflexivity.
-    - inversion HF2 as [|? e ? l2 [Ha2 [Hb2 [c2 [_ Hd2]]]] HF2']; subst.
+    - inversion HF2 as [|? e ? l2 [Ha2 [Hb2 [c2 [_ [Hd2 _]]]]] HF2']; subst.
       inversion Hwf as [|? ? Hlen Hwf']; subst. simpl. rewrite (IH l2 Hwf' HF2'). f_equal.
-      rewrite Ha2, Ha, Hb2, Hb, Hd2, Hd1. rewrite (reindexed_data_roundtrip _ _ _ c1 c2 ND Hlen Hsub). reflexivity.
+      rewrite Ha2, Ha, Hb2, Hb, Hd2. rewrite erase_reindexed_data, Hd1, erase_reindexed_data.
+      assert (HL : length (map erase (s_data (snd a))) = length (span_labels (c_span st))) by (rewrite map_length; exact Hlen).
+      rewrite (reindexed_data_roundtrip _ _ _ (erase c1) (erase c2) ND HL Hsub). reflexivity.
   Qed.
 End Facts.
